@@ -1,6 +1,6 @@
 #!/bin/bash
-# Like eval_seed.sh, but never touches /repo: the harness is copied to /tmp/evalh and built against a scratch
-# worktree of /repo (/tmp/evalrepo) that carries the patch.  Used while a background run is using /repo.
+# Like eval_seed.sh, but never touches /repo: the harness is copied to /tmp/evalh${EVAL_SLOT:-} and built against a scratch
+# worktree of /repo (/tmp/evalrepo${EVAL_SLOT:-}) that carries the patch.  Used while a background run is using /repo.
 # usage: tools/eval_seed2.sh <agent-worktree> <seed-name> <property-id>...
 set -u
 WT="$1"; NAME="$2"; shift 2
@@ -24,26 +24,26 @@ echo "with patch:    $with" | tr '\n' ' '; echo
 echo "demo with:     $with_demo"
 echo "demo without:  $without_demo"
 # scratch repo + scratch harness
-if [ ! -d /tmp/evalrepo ]; then git -C /repo worktree add -q --detach /tmp/evalrepo HEAD; fi
-git -C /tmp/evalrepo checkout -q -- . ; git -C /tmp/evalrepo checkout -q --detach $(git -C /repo rev-parse HEAD)
-git -C /tmp/evalrepo apply "$OUT/patch.diff" || { echo "patch does not apply to /repo HEAD"; exit 2; }
-mkdir -p /tmp/evalh /tmp/evalv
-rsync -a --delete --exclude target --exclude fuzz ${EVAL_SRC:-$V/harness}/ /tmp/evalh/
-sed -i 's#path = "/repo"#path = "/tmp/evalrepo"#' /tmp/evalh/Cargo.toml
-rsync -a --delete $V/known $V/regress $V/known_findings.json /tmp/evalv/
-( cd /tmp/evalh && cargo build --profile checked --bin vcheck 2>/tmp/evalh/build.log ) || { echo "scratch harness build failed"; tail -20 /tmp/evalh/build.log; git -C /tmp/evalrepo checkout -q -- .; exit 2; }
+if [ ! -d /tmp/evalrepo${EVAL_SLOT:-} ]; then git -C /repo worktree add -q --detach /tmp/evalrepo${EVAL_SLOT:-} HEAD; fi
+git -C /tmp/evalrepo${EVAL_SLOT:-} checkout -q -- . ; git -C /tmp/evalrepo${EVAL_SLOT:-} checkout -q --detach $(git -C /repo rev-parse HEAD)
+git -C /tmp/evalrepo${EVAL_SLOT:-} apply "$OUT/patch.diff" || { echo "patch does not apply to /repo HEAD"; exit 2; }
+mkdir -p /tmp/evalh${EVAL_SLOT:-} /tmp/evalv${EVAL_SLOT:-}
+rsync -a --delete --exclude target --exclude fuzz ${EVAL_SRC:-$V/harness}/ /tmp/evalh${EVAL_SLOT:-}/
+sed -i "s#path = \"/repo\"#path = \"/tmp/evalrepo${EVAL_SLOT:-}\"#" /tmp/evalh${EVAL_SLOT:-}/Cargo.toml
+rsync -a --delete $V/known $V/regress $V/known_findings.json /tmp/evalv${EVAL_SLOT:-}/
+( cd /tmp/evalh${EVAL_SLOT:-} && cargo build --profile checked --bin vcheck 2>/tmp/evalh${EVAL_SLOT:-}/build.log ) || { echo "scratch harness build failed"; tail -20 /tmp/evalh${EVAL_SLOT:-}/build.log; git -C /tmp/evalrepo${EVAL_SLOT:-} checkout -q -- .; exit 2; }
 case " $PROPS " in *" C17 "*|*" C19 "*)
-  ( cd /tmp/evalh && cargo build --profile plain --bin vcheck 2>>/tmp/evalh/build.log ) && export VERIF_PLAIN_BIN=/tmp/evalh/target/plain/vcheck ;;
+  ( cd /tmp/evalh${EVAL_SLOT:-} && cargo build --profile plain --bin vcheck 2>>/tmp/evalh${EVAL_SLOT:-}/build.log ) && export VERIF_PLAIN_BIN=/tmp/evalh${EVAL_SLOT:-}/target/plain/vcheck ;;
 esac
 RES=""
 for p in $PROPS; do
-  o=$(VERIF_DIR=/tmp/evalv /tmp/evalh/target/checked/vcheck $p quick 2>&1); rc=$?
+  o=$(VERIF_DIR=/tmp/evalv${EVAL_SLOT:-} /tmp/evalh${EVAL_SLOT:-}/target/checked/vcheck $p quick 2>&1); rc=$?
   line=$(echo "$o" | grep -E "^VIOLATION|^INCONCLUSIVE" | head -1)
-  why=$(echo "$o" | grep -E "^leg |^stage |^regression input|^abort" | head -1 | cut -c1-400)
+  why=$(echo "$o" | grep -E "^leg |^stage |^regression input|^abort|^crash" | head -1 | cut -c1-400)
   echo "check $p rc=$rc $line"; [ -n "$why" ] && echo "   $why"
   RES="$RES{\"property\":\"$p\",\"exit\":$rc,\"detail\":$(python3 -c 'import json,sys; print(json.dumps(sys.argv[1]))' "$why")},"
 done
-git -C /tmp/evalrepo checkout -q -- .
+git -C /tmp/evalrepo${EVAL_SLOT:-} checkout -q -- .
 python3 - "$OUT" "$NAME" "$with" "$with_demo" "$without_demo" "[${RES%,}]" <<'PY'
 import json,sys
 out,name,w,wd,wod,res=sys.argv[1:7]
